@@ -208,3 +208,16 @@ NEUTRALS = [
     M("selection via temporaries", _S, "return self.__class__(\n            x=self.x[idx],", "xs = self.x[idx]\n        return self.__class__(\n            x=xs,", within="BaseSamples.__getitem__"),
     M("concatenate keyword order", _S, "parameters=samples[0].parameters,\n            dtype=samples[0].dtype,", "dtype=samples[0].dtype,\n            parameters=samples[0].parameters,"),
 ]
+
+# functions the property is anchored in (auto-mutant sweep of the thorough tier)
+ANCHORS = [
+    'aspire.samples:BaseSamples.__getitem__',
+    'aspire.samples:BaseSamples.concatenate',
+    'aspire.samples:Samples.__getitem__',
+    'aspire.samples:SMCSamples.__getitem__',
+    'aspire.samples:SMCSamples.concatenate',
+    'aspire.samples:BaseSamples.__getstate__',
+    'aspire.samples:BaseSamples.__setstate__',
+    'aspire.samples:BaseSamples.to_dict',
+    'aspire.samples:BaseSamples.from_dict',
+]
